@@ -103,6 +103,9 @@ def run_real(rp, spec, ops):
             except Exception as e:
                 answers.append('Error')
             trace.append({'op': o, 'before': before, 'after': state(nl), 'answer': answers[-1], 'held': {k: [slot_canon(s) for s in v] for k, v in held.items()}})
+            if answers[-1] is None and not held:
+                try: trace[-1]['fresh'] = bool(make_pilot(rp, spec).nodelist.find_slots(rr, n_slots=o[3]))
+                except Exception: pass
         elif o[0] == 'alloc':
             # a slot of the application's own making, placed with the consistency checks of allocate_slot
             from radical.pilot.resource_config import Slot, RO
@@ -209,6 +212,9 @@ def monitor(spec, ops, trace, props):
                             bad.append(('C01', 'nodelist:blocked-%s-granted' % kind[:-1], 'node %d %s %d is DOWN' % (ni, kind[:-1], i)))
                 if u['lfs'] > init[ni]['lfs'] or u['mem'] > init[ni]['mem']:
                     bad.append(('C01', 'nodelist:lfs-or-mem-oversubscribed', 'node %d holds lfs %d / mem %d of %d / %d' % (ni, u['lfs'], u['mem'], init[ni]['lfs'], init[ni]['mem'])))
+        if 'C03' in props and t['op'][0] == 'find' and t['answer'] is None and not t['held'] and t.get('fresh') is True:
+            bad.append(('C03', 'nodelist:request-refused-on-a-pilot-that-holds-nothing', 'nothing is held; %d slots of %s are refused, a fresh pilot grants them'
+                        % (t['op'][3], t['op'][2])))
         if 'C03' in props and t['op'][0] == 'probe':
             for pr in t['answer']:
                 if pr['fresh'] and not pr['got']:
@@ -259,6 +265,13 @@ def run(ctx, prop):
 
 
 CORPUS = [
+    # nothing is held; three slots are asked for where two fit (refused), then ONE smaller slot: it is granted (the original
+    # refusal cache refused everything smaller than a failed request until something was released - on an empty pilot, forever)
+    ({'nodes': [{'cores': [0, 0], 'gpus': [], 'lfs': 100, 'mem': 0}, {'cores': [0, 0], 'gpus': [], 'lfs': 100, 'mem': 0}],
+      'cpn': 2, 'gpn': 0, 'lfs_pn': 100, 'mem_pn': 0},
+     [['find', 0, {'n_cores': 1, 'core_occ': 16, 'n_gpus': 0, 'gpu_occ': 16, 'lfs': 60, 'mem': 0}, 3],
+      ['find', 1, {'n_cores': 1, 'core_occ': 16, 'n_gpus': 0, 'gpu_occ': 16, 'lfs': 30, 'mem': 0}, 1],
+      ['release', 0], ['release', 1]]),
     # a request that passes the static check but does not fit what is free collects slots on node 0 and fails on node 1
     ({'nodes': [{'cores': [0, 0, 0, 0], 'gpus': [], 'lfs': 0, 'mem': 0}, {'cores': [0, 0, 0, 0], 'gpus': [], 'lfs': 0, 'mem': 0}],
       'cpn': 4, 'gpn': 0, 'lfs_pn': 0, 'mem_pn': 0},
